@@ -66,7 +66,10 @@ def scenarios(rng, tier):
     sc.append(["Ui5", "Ua1000", "Uf", "Td", "Ua2000", "Uh1", "Uf", "Ud", "Td"])
     # RTH conversion: action,time,dur,pre,post,neck,neckdur
     for c in ["C3,5,10,1,2,500,3", "C2,5,70,0,0,0,0", "C1,0,0,0,130,0,0", "C2,5,-1,1,2,0,0", "C3,5,10,1,2,500,-3", "C7,5,10,1,2,0,0",
-              "C3,-5,0,0,0,-500,0", "C2,5,10,1,-2,0,0", "C3,5,4294968,0,0,0,0", "C2,4294968,1,0,0,0,0"]:
+              "C3,-5,0,0,0,-500,0", "C2,5,10,1,-2,0,0", "C3,5,4294968,0,0,0,0", "C2,4294968,1,0,0,0,0",
+              # every duration of the entry in turn is too long for 32-bit milliseconds (conversion fails at that phase)
+              "C3,5,10,4294968,0,0,0", "C3,5,10,0,4294968,0,0", "C3,5,10,1,2,500,4294968", "C1,5,0,0,4294968,0,0",
+              "C1,5,0,4294968,0,0,0", "C2,5,10,1,5000000,0,0", "C3,5,10,1,-1,500,3", "C3,5,10,-1,1,500,3", "C3,5,10,1,1,500,-3"]:
         sc.append([c, "Td"])
     # solver
     for n in (0, 1, 2, 3, 4, 5, 6, 8):
